@@ -3673,6 +3673,12 @@ class CacheDataset(Dataset):
                 raise KeyErrorCloseMatches(item, self.keys()) from None
 
         if isinstance(item, numbers.Integral):
+            if item < 0:
+                # ds[-1] and ds[len(ds) - 1] are the same example and have to
+                # share one cache entry.
+                if item < -len(self):
+                    raise IndexError(item)
+                item = item + len(self)
             try:
                 return self._cache[item]
             except KeyError:
